@@ -97,6 +97,9 @@ func showKeyErr(err error) string {
 	return "err-other " + err.Error()
 }
 
+// optsMutation is set by callKey when a Key function changed the options struct it was given (C13).
+var optsMutation string
+
 // callKey invokes the real Key function of the scheme.
 func callKey(a keyArgs) ([]byte, error) {
 	switch a.scheme {
@@ -121,6 +124,14 @@ func callKey(a keyArgs) ([]byte, error) {
 		if !a.optsNil {
 			o = &sunmd5.CompatibilityOptions{Prefix: a.optPrefix, DisableSaltSeparator: a.optFlag}
 		}
+		if o != nil {
+			before := *o
+			defer func() {
+				if *o != before {
+					optsMutation = fmt.Sprintf("sunmd5.CompatibilityOptions changed from %+v to %+v", before, *o)
+				}
+			}()
+		}
 		return sunmd5.Key(a.pw, a.salt, a.rounds, o)
 	case "des":
 		return des.Key(a.pw, a.salt)
@@ -131,6 +142,14 @@ func callKey(a keyArgs) ([]byte, error) {
 		if !a.optsNil {
 			o = &bcrypt.CompatibilityOptions{Prefix: a.optPrefix}
 		}
+		if o != nil {
+			before := *o
+			defer func() {
+				if *o != before {
+					optsMutation = fmt.Sprintf("bcrypt.CompatibilityOptions changed from %+v to %+v", before, *o)
+				}
+			}()
+		}
 		return bcrypt.Key(a.pw, a.salt, uint8(a.rounds), o)
 	case "nthash":
 		return nthash.Key(a.pw)
@@ -138,6 +157,14 @@ func callKey(a keyArgs) ([]byte, error) {
 		var o *argon2.CompatibilityOptions
 		if !a.optsNil {
 			o = &argon2.CompatibilityOptions{Prefix: a.optPrefix, Version: a.optVersion}
+		}
+		if o != nil {
+			before := *o
+			defer func() {
+				if *o != before {
+					optsMutation = fmt.Sprintf("argon2.CompatibilityOptions changed from %+v to %+v", before, *o)
+				}
+			}()
 		}
 		return argon2.Key(a.pw, a.salt, a.memory, a.rounds, a.threads, o)
 	}
